@@ -24,10 +24,13 @@ def obligations(tier):
                  desc='jls_buf_realloc(symbolic size <= 4096) from an 8-byte buffer: terminates, proportionate, cursor/length/content preserved',
                  bound='request <= 4096 bytes'))
     pm = 24
-    o.append(Obl('O4_rd_chunk_growth', 'c13_buf.c', units=['core.c', 'raw.c', 'buffer.c'], stubs=['log_stub.c', 'membk.c', 'crcfun.c'],
-                 defines=['JLS_VERIF_BUF_DEFAULT_SIZE=16', 'JLS_VERIF_BUF_STRING_SIZE=10', 'JLS_VERIF_SIGNAL_COUNT=1', 'JLS_VERIF_SOURCE_COUNT=1', 'JLS_VERIF_FSR_BUFFER_U64=2',
-                          'MODE_RDCHUNK=1', 'PMAX=%d' % pm, 'MEMBK_SIZE=160'],
-                 unwind=pm + 14, timeout=900, backend=PORTFOLIO,
-                 desc='jls_core_rd_chunk on a chunk with payload length symbolic in 0..%d around the 16-byte read buffer: terminates, payload unaltered' % pm,
-                 bound='payload <= %d bytes, read buffer 16 bytes (hook)' % pm))
+    for plen in ([4, 13, 16, 24] if tier == 'quick' else [0, 4, 12, 13, 16, 17, 20, 24]):
+        ob = (Obl('O4_rd_chunk_growth_len%d' % plen, 'c13_buf.c', units=['core.c', 'raw.c', 'buffer.c'], stubs=['log_stub.c', 'membk.c', 'crcfun.c'],
+                     defines=['JLS_VERIF_BUF_DEFAULT_SIZE=16', 'JLS_VERIF_BUF_STRING_SIZE=10', 'JLS_VERIF_SIGNAL_COUNT=1', 'JLS_VERIF_SOURCE_COUNT=1', 'JLS_VERIF_FSR_BUFFER_U64=2',
+                              'MODE_RDCHUNK=1', 'PMAX=%d' % pm, 'MEMBK_SIZE=160', 'FIXED_PLEN=%d' % plen],
+                     unwind=pm + 14, timeout=600, backend=PORTFOLIO,
+                     desc='jls_core_rd_chunk on a chunk with a %d-byte payload (symbolic bytes) and a 16-byte read buffer: terminates, payload unaltered' % plen,
+                     bound='payload length %d (instances around the buffer size: fits / payload fits but footer does not / larger), read buffer 16 bytes (hook)' % plen))
+        ob.unwind_text = [('jls_core_rd_chunk', r'while \(1\)', 4)]     # at most: TOO_BIG, grow, success (proved by the unwinding assertion)
+        o.append(ob)
     return o
